@@ -19,7 +19,51 @@ def proof_part(ctx, props_file, proof_files, cov):
                theorems=a["theorems"],
                print_assumptions="%d of %d statements: Closed under the global context" % (a["closed"], len(a["theorems"])) + ("; AXIOMS: " + " | ".join(a["axioms"]) if a["axioms"] else ""))
     cov["trusted_base"] = TRUSTED + ["axioms reported by Print Assumptions: " + ("none" if not a["axioms"] else " | ".join(a["axioms"]))]
+    if any(f in proof_files for f in ("proofs/Skel.v", "proofs/SkelTwins.v")):
+        cov["source_translation"] = "gen/SrcFacts.v regenerated from xsync_map.go / xsync_mapof.go by harness/srcfacts/skeleton.go; proofs/Skel.v re-checked against it"
+        if any(b.startswith("proofs/Skel") for b in broken):
+            d = skeleton_diff()
+            cov["skeleton_diff"] = d
+            broken = [b + (" -- " + d if b.startswith("proofs/Skel") else "") for b in broken]
     return broken
+
+def extra_props(ctx, props_file, cov, broken):
+    """a second file of statements of the same property: its Print Assumptions output joins the first one's"""
+    from .engine import assumptions_of
+    if not os.path.exists(os.path.join(C.COQ, props_file[:-2] + ".vo")):
+        if props_file not in broken:
+            broken.append(props_file)
+        return
+    a = assumptions_of(props_file)
+    if not a["ok"] and props_file not in broken:
+        broken.append(props_file)
+    cov["theorems"] = cov.get("theorems", []) + a["theorems"]
+    cov["print_assumptions"] = cov.get("print_assumptions", "") + "; %s: %d statements printed, %d Closed under the global context" % (props_file, a["closed"], a["closed"]) + ("; AXIOMS: " + " | ".join(a["axioms"]) if a["axioms"] else "")
+
+def skeleton_diff():
+    """which method / primitive of the translated source no longer agrees with the model programs (evaluated
+    inside Coq on the definitions of SkelDefs.v, which build also when Skel.v's theorems do not)"""
+    src = ("From CacheV Require Import Base SpecMap Client CacheModel CacheOfModel Ops.\n"
+           "From CacheV.gen Require Import SrcFacts.\nFrom CacheV.proofs Require Import SkelDefs.\nFrom Coq Require Import ZArith String.\nOpen Scope string_scope.\n"
+           "Eval vm_compute in (exceeds budgets_map (prog_cache Z.eq_dec 0%Z), unattained budgets_map (prog_cache Z.eq_dec 0%Z)).\n"
+           "Eval vm_compute in (exceeds budgets_mapof (prog_cacheof Z.eq_dec 0%Z), unattained budgets_mapof (prog_cacheof Z.eq_dec 0%Z)).\n")
+    import tempfile, re
+    with tempfile.TemporaryDirectory(prefix="verif-skel-") as td:
+        f = os.path.join(td, "skeldiag.v")
+        open(f, "w").write(src)
+        rc, out, err = C.sh("coqc -Q %s CacheV %s 2>&1" % (C.COQ, f), cwd=td, timeout=600)
+    if rc != 0:
+        return "diagnostics unavailable: " + (out + err)[-300:]
+    txt = re.sub(r"\s+", " ", out)
+    parts = re.findall(r"= \((.*?)\) : list", txt)
+    names = ["xsync_map.go vs prog_cache", "xsync_mapof.go vs prog_cacheof"]
+    res = []
+    for nm, p in zip(names, parts):
+        res.append("%s: (model does what the source's budget does not allow, source budget entries no model run attains) = (%s)" % (nm, p.strip()))
+    notes = re.findall(r"\(\* translator note: (.*?) \*\)", open(os.path.join(C.COQ, "gen", "SrcFacts.v")).read())
+    if notes:
+        res.append("translator notes: " + "; ".join(notes))
+    return " || ".join(res) if res else txt[-600:]
 
 def cache_seq_part(ctx, pid, cov, n_cases, broken_proofs, dense=False):
     """common tail of the checks tied by CORR-cache-seq"""
@@ -76,7 +120,7 @@ def check_C01():
 
 def check_C12():
     ctx = Ctx("C12"); cov = {}
-    broken = proof_part(ctx, "props/C12.v", ["proofs/C12_twins.v", "proofs/C12_maps.v", "proofs/C11_table.v", "proofs/C11_lists.v"], cov)
+    broken = proof_part(ctx, "props/C12.v", ["proofs/C12_twins.v", "proofs/C12_maps.v", "proofs/C11_table.v", "proofs/C11_lists.v", "proofs/SkelTwins.v"], cov)
     td = corr_cache.twin_diff(ctx, N(ctx, 1000, 20000))
     cov["twin_differential_cases"] = td["n"]
     cov["twin_differential_disagreements"] = len(td.get("diffs", []))
@@ -159,7 +203,7 @@ def check_C09():
 
 def check_C06():
     ctx = Ctx("C06"); cov = {}
-    broken = proof_part(ctx, "props/C06.v", ["proofs/C06_seq.v", "proofs/C06_hist.v", "proofs/C12_twins.v", "proofs/C01_ops.v", "proofs/C02_good.v", "proofs/C02_methods.v", "proofs/C02_lin.v", "proofs/CX_compose.v", "proofs/CX_product.v", "proofs/CX_mapof.v", "proofs/CX_map.v", "proofs/CX_monitor.v", "proofs/CX_monitor_inst.v", "proofs/C02_lin_gen.v", "proofs/C02_methods_of.v"], cov)
+    broken = proof_part(ctx, "props/C06.v", ["proofs/C06_seq.v", "proofs/C06_hist.v", "proofs/C12_twins.v", "proofs/C01_ops.v", "proofs/C02_good.v", "proofs/C02_methods.v", "proofs/C02_lin.v", "proofs/CX_compose.v", "proofs/CX_product.v", "proofs/CX_mapof.v", "proofs/CX_map.v", "proofs/CX_monitor.v", "proofs/CX_monitor_inst.v", "proofs/C02_lin_gen.v", "proofs/C02_methods_of.v", "proofs/SkelDefs.v", "proofs/Skel.v"], cov)
     res = cache_seq_part(ctx, "C06", cov, N(ctx, 1200, 20000), broken, dense=True)
     law_part(ctx, "C06", cov, res)
     # removals made by the janitor: real time, callback swapped after construction in half of the cases
@@ -420,7 +464,9 @@ def sched_part(ctx, pid, cov, sets, directed=True, extra=()):
 
 def check_C02():
     ctx = Ctx("C02"); cov = {}
-    broken = proof_part(ctx, "props/C02.v", ["proofs/C02_good.v", "proofs/C02_methods.v", "proofs/C02_lin.v", "proofs/C01_sim.v", "proofs/C01_ops.v", "Lin.v", "proofs/CX_trans.v", "proofs/CX_compose.v", "proofs/CX_product.v", "proofs/CX_mapof.v", "proofs/CX_map.v", "proofs/C02_methods_of.v", "proofs/C02_lin_gen.v", "proofs/C02_lin_of.v", "proofs/CX_cacheof.v", "proofs/CX_product2.v", "proofs/CX_mapof2.v", "proofs/CX_map2.v", "proofs/X_linearizable2.v", "proofs/XS_linearizable2.v", "proofs/X_linearizable.v", "proofs/XS_linearizable.v", "XMachine.v", "XMachineS.v"], cov)
+    broken = proof_part(ctx, "props/C02.v", ["proofs/C02_good.v", "proofs/C02_methods.v", "proofs/C02_lin.v", "proofs/C01_sim.v", "proofs/C01_ops.v", "Lin.v", "proofs/CX_trans.v", "proofs/CX_compose.v", "proofs/CX_product.v", "proofs/CX_mapof.v", "proofs/CX_map.v", "proofs/C02_methods_of.v", "proofs/C02_lin_gen.v", "proofs/C02_lin_of.v", "proofs/CX_cacheof.v", "proofs/CX_product2.v", "proofs/CX_mapof2.v", "proofs/CX_map2.v", "proofs/X_linearizable2.v", "proofs/XS_linearizable2.v", "proofs/X_linearizable.v", "proofs/XS_linearizable.v", "XMachine.v", "XMachineS.v", "proofs/SkelDefs.v", "proofs/Skel.v",
+                                             "LinT.v", "ConcT.v", "proofs/LinT_facts.v", "proofs/LinT_tests.v", "proofs/C02T_good.v", "proofs/C02T_methods.v", "proofs/C02T_lin.v", "proofs/C02T_main.v", "proofs/C02T_methods_of.v", "proofs/C02T_ex.v", "props/C02T.v"], cov)
+    extra_props(ctx, "props/C02T.v", cov, broken)
     n = N(ctx, 2500, 40000)
     sched_part(ctx, "C02", cov, [("Cache", n, []), ("CacheOf_int", n, []), ("CacheOf_str", n // 2, ["-sched", "pct"]),
                                  ("Cache", n // 2, ["-threads", "4", "-ops", "4", "-sched", "mix"])])
@@ -432,7 +478,7 @@ def check_C02():
 def check_C05():
     ctx = Ctx("C05"); cov = {}
     broken = proof_part(ctx, "props/C05.v", ["proofs/C05_spec.v", "proofs/C05_map.v", "proofs/C02_lin.v", "proofs/C02_methods.v", "proofs/C11_table.v",
-                                             "proofs/X_basic.v", "proofs/X_inv.v", "proofs/X_c13.v", "proofs/X_fn.v", "XMachine.v", "props/C03.v", "proofs/XS_fn.v", "XMachineS.v"], cov)
+                                             "proofs/X_basic.v", "proofs/X_inv.v", "proofs/X_c13.v", "proofs/X_fn.v", "XMachine.v", "props/C03.v", "proofs/XS_fn.v", "XMachineS.v", "proofs/SkelDefs.v", "proofs/Skel.v"], cov)
     n = N(ctx, 1500, 25000)
     sched_part(ctx, "C05", cov, [("Cache", n, []), ("CacheOf_int", n, []), ("Map", n, ["-prefill", "73"]),
                                  ("MapOf_int", n, ["-hasher", "const", "-prefill", "125"]), ("MapOf_str", n, ["-prefill", "121"])])
@@ -576,7 +622,7 @@ def reentrant_scenarios():
 
 def check_C13():
     ctx = Ctx("C13"); cov = {}
-    broken = proof_part(ctx, "props/C13.v", ["proofs/X_basic.v", "proofs/X_inv.v", "proofs/X_c13.v", "proofs/X_inst.v", "proofs/X_c16.v", "proofs/X_term.v", "proofs/XS_term.v", "XMachine.v", "props/C03.v", "proofs/XS_inv.v", "proofs/XS_lock.v", "proofs/XS_inst.v", "XMachineS.v"], cov)
+    broken = proof_part(ctx, "props/C13.v", ["proofs/X_basic.v", "proofs/X_inv.v", "proofs/X_c13.v", "proofs/X_inst.v", "proofs/X_c16.v", "proofs/X_term.v", "proofs/X_fair.v", "proofs/XS_term.v", "XMachine.v", "props/C03.v", "proofs/XS_inv.v", "proofs/XS_lock.v", "proofs/XS_inst.v", "XMachineS.v"], cov)
     n = N(ctx, 1200, 20000)
     from . import solo
     fam = solo.resize_families(ctx.tier, [("Map", None), ("MapOf_int", "default"), ("MapOf_int", "const"), ("MapOf_str", "default")])
@@ -668,7 +714,7 @@ def check_C03():
 
 def check_C14():
     ctx = Ctx("C14"); cov = {}
-    broken = proof_part(ctx, "props/C14.v", ["proofs/X_basic.v", "proofs/X_inv.v", "proofs/X_c13.v", "proofs/X_c16.v", "proofs/X_own.v", "XMachine.v", "props/C03.v", "proofs/XS_lock.v", "proofs/XS_own.v", "proofs/XS_inst.v", "XMachineS.v"], cov) if os.path.exists(os.path.join(C.COQ, "props/C14.v")) else []
+    broken = proof_part(ctx, "props/C14.v", ["proofs/X_basic.v", "proofs/X_inv.v", "proofs/X_c13.v", "proofs/X_c16.v", "proofs/X_own.v", "XMachine.v", "props/C03.v", "proofs/XS_lock.v", "proofs/XS_own.v", "proofs/XS_inst.v", "XMachineS.v", "proofs/SkelDefs.v", "proofs/Skel.v"], cov) if os.path.exists(os.path.join(C.COQ, "props/C14.v")) else []
     res = run_native(ctx, "race")
     j = res.get("raw") or {}
     cov["native_race"] = dict(race_enabled=j.get("race_enabled"), workloads=len(j.get("workloads", [])), race_reports=j.get("race_reports"),
